@@ -890,6 +890,9 @@ pub fn err_dig(e: &MqttError) -> String {
         MqttError::CodecError(_) => "Err:CodecError".into(),
         MqttError::QuotaExceeded(_) => "Err:QuotaExceeded".into(),
         MqttError::MaximumPacketSizeExceeded(_) => "Err:MaximumPacketSizeExceeded".into(),
+        // (a variant this harness does not know: the build must not depend on the set being closed)
+        #[allow(unreachable_patterns)]
+        other => format!("Err:Other({:?})", other).chars().take(60).collect(),
     }
 }
 
